@@ -14,7 +14,8 @@ for sid in sorted(os.listdir(root)):
     res = {}
     for prop in props:
         t0 = time.time()
-        r = subprocess.run(["/verif/bin/try_mutant.sh", os.path.join(root, sid, "patch.diff"), prop, "quick"], stdout=subprocess.PIPE, stderr=subprocess.STDOUT, text=True)
+        env = dict(os.environ, VERIF_MAX_VIOLATIONS="1", VERIF_SHRINK_S="15", VERIF_NO_EVIDENCE="1")
+        r = subprocess.run(["/verif/bin/try_mutant.sh", os.path.join(root, sid, "patch.diff"), prop, "quick"], stdout=subprocess.PIPE, stderr=subprocess.STDOUT, text=True, env=env)
         sigs = [l.strip()[len("signature: "):] for l in r.stdout.splitlines() if l.strip().startswith("signature:")]
         res[prop] = {"exit": r.returncode, "caught": r.returncode == 1, "signatures": sigs[:6], "wall_s": round(time.time() - t0, 1)}
         print("%-40s %-4s %s %s" % (sid, prop, "CAUGHT" if r.returncode == 1 else "exit %d" % r.returncode, sigs[:1]), flush=True)
